@@ -154,6 +154,12 @@ def run_task(task):
             finally:
                 for k, v in h.interp.call_log.items():
                     call_log[k] = call_log.get(k, 0) + v
+                # an execution is non-trivial if it generated an obligation
+                # and the contract did not mark it as a repeat of the
+                # reference run (C17: no site was permuted on this path)
+                if pctx.side_obligations and not getattr(h, "trivial", False):
+                    out["nontrivial_paths"] = out.get(
+                        "nontrivial_paths", 0) + 1
             return None
 
         try:
